@@ -98,6 +98,25 @@ def match(
         return ("exc", type(exc).__name__, str(exc)[:300])
 
 
+def match_twice(rule_path: str, input_path: str, *, binary=False, ret="list", search="all", only_addr=False, macros=None):
+    """perform_matching() called twice on the SAME MasterOfPuppets object. Returns ("ok", first, second) or ("exc", ...)."""
+    try:
+        cfg = gd.MatchConfig(
+            pattern_pathstr=rule_path, input_file=input_path,
+            input_file_type=gd.InputFileType.binary if binary else gd.InputFileType.assembly,
+            return_only_address=only_addr, return_mode=getattr(gd.MatchingReturnMode, RETURN[ret]),
+            matching_mode=getattr(gd.MatchingSearchMode, SEARCH[search]), macros=macros)
+        mop = jm.MasterOfPuppets(cfg)
+        first = mop.perform_matching()
+        first = list(first) if isinstance(first, list) else first
+        second = mop.perform_matching()
+        return ("ok", first, second)
+    except BaseException as exc:  # noqa: BLE001
+        if isinstance(exc, (KeyboardInterrupt, SystemExit, MemoryError)):
+            raise
+        return ("exc", type(exc).__name__, str(exc)[:300])
+
+
 def compile_rule(rule_path: str, macros: Optional[List[str]] = None):
     try:
         return ("ok", y2r.Yaml2Regex(rule_path, macros_from_terminal=macros).produce_regex())
